@@ -5,8 +5,10 @@ import (
 	"errors"
 	"fmt"
 	"io"
+	"runtime"
 	"strings"
 	"sync"
+	"sync/atomic"
 	"time"
 
 	p9p "github.com/frobnitzem/go-p9p"
@@ -14,6 +16,7 @@ import (
 	"verifharness/gen"
 	"verifharness/mon"
 	"verifharness/refcodec"
+	"verifharness/wire"
 )
 
 // C12: client calls never hang, and the client survives a misbehaving peer.
@@ -22,7 +25,7 @@ func init() {
 		ID:    "C12",
 		Level: "fault_enumeration",
 		Rule: "a real p9p.CSession client with P in {1,2,3,5,8,16} pending calls (unique ids) against a scripted fake server on a fault-injecting in-memory connection. Fault enumeration over a recorded fault-free run of the same scenario: the inbound stream is failed at EVERY byte offset k of the reply stream (error and EOF flavours), " +
-			"the connection is closed by the peer after every number of replies, EVERY client write j is failed (0 or partial bytes passed on), the session context is cancelled after every number of replies, and every single pending call is cancelled on its own. " +
+			"the connection is closed by the peer after every number of replies, EVERY client write j is failed (0 or partial bytes passed on), the session context is cancelled after every number of replies, and every single pending call is cancelled on its own; read errors come as plain errors and as permanent net.Errors (a client that keeps reading a permanently failed connection is detected by counting its reads after the failure, not by a timer); a call with a deadline context completes, the connection's (virtual) clock then passes that deadline, and a call without deadline must still go through on a connection that honours write deadlines. " +
 			"Hostile-peer sampling: valid frames with unknown / repeated / NOTAG / neighbouring tags, every R- and T-type as reply to every request kind, Rversion mid-session, frames from the abnormal classes (length prefix 0-3, truncated body, hostile inner lengths, unknown type, oversize) and pure garbage, followed or not by the correct replies. " +
 			"Oracle: the worker process survives (a crash is attributed to the logged case); at quiescence every pending call has returned; calls whose reply arrived intact before the fault return their own id, the others an error; a later call returns an error; a per-call cancel returns and leaves the other calls' results intact; a wrong-typed reply surfaces as an error. " +
 			"non-trivial = >= 1 call pending at the fault / hostile frame; distinct by (fault kind, index, pending count) or (frame class, request kind, pending count)",
@@ -36,7 +39,7 @@ func init() {
 		Shards:    shards(8, 16),
 		Timeout:   timeouts(4*time.Minute, 40*time.Minute),
 		MinEvals:  200,
-		Required:  []string{"fault:read-error", "fault:read-eof", "fault:peer-close", "fault:write-fail", "fault:ctx-cancel", "fault:call-cancel", "hostile:unknown-tag", "hostile:repeated-tag", "hostile:wrong-type", "hostile:abnormal-frame", "hostile:garbage", "hostile:overlong-rread", "fault:local-failure", "later_call_checked", "pending_calls_returned"},
+		Required:  []string{"fault:read-error", "fault:read-eof", "fault:peer-close", "fault:write-fail", "fault:ctx-cancel", "fault:call-cancel", "hostile:unknown-tag", "hostile:repeated-tag", "hostile:wrong-type", "hostile:abnormal-frame", "hostile:garbage", "hostile:overlong-rread", "fault:local-failure", "fault:read-neterror", "fault:deadline-then-plain", "later_call_checked", "pending_calls_returned"},
 		Run:       runC12,
 	})
 }
@@ -204,6 +207,12 @@ func runC12(w *mon.W) {
 				c12LocalFailure(w, P, variant, s)
 			}
 		}
+		for variant := 0; variant < 4; variant++ {
+			idx++
+			if w.Mine(idx) {
+				c12DeadlineThenPlain(w, P, variant, s)
+			}
+		}
 	}
 	// ---- hostile peer
 	n := w.Scale(700, 60000)
@@ -250,6 +259,12 @@ func c12ReadFault(w *mon.W, P, k int, eof bool, scen int) {
 	if eof {
 		kind = "read-eof"
 	}
+	// the error flavour alternates between a plain error and a permanent network error
+	// (a net.Error that is neither a timeout nor temporary, like ECONNRESET on a socket)
+	netErr := !eof && k%2 == 1
+	if netErr {
+		kind = "read-neterror"
+	}
 	desc := fmt.Sprintf("scenario %d: %d pending calls, inbound stream fails (%s) at reply byte %d", scen, P, kind, k)
 	w.Case("C12 %s", desc)
 	e := newC12(w, desc)
@@ -267,14 +282,32 @@ func c12ReadFault(w *mon.W, P, k int, eof bool, scen int) {
 	e.h.fault.ReadFailAt = in0 + k
 	if eof {
 		e.h.fault.ReadErr = io.EOF
+	} else if netErr {
+		e.h.fault.ReadErr = &wire.NetErr{Msg: "read mem: connection reset by peer"}
 	} else {
 		e.h.fault.ReadErr = errors.New("injected read error")
 	}
 	stream, ends := c12Replies(cs)
 	e.h.replyRaw(stream)
-	if !settle() {
-		w.Inconclusive("watchdog")
-		return
+	// quiescence - unless the client spins on the failed connection (a livelock never gets quiet)
+	start := time.Now()
+	for i := 0; ; i++ {
+		if q, _ := mon.QuietNow(); q {
+			break
+		}
+		if n := e.h.fault.ReadsAfterFail(); n > 20000 {
+			e.bad("hang", "client-spins-on-failed-connection", "the connection's reads fail permanently (%v) but the client keeps reading: %d reads after the failure, pending calls never return", e.h.fault.ReadErr, n)
+			return
+		}
+		if i < 50 {
+			runtime.Gosched()
+		} else {
+			time.Sleep(20 * time.Microsecond)
+		}
+		if i%1000 == 999 && time.Since(start) > mon.Watchdog {
+			w.Inconclusive("watchdog")
+			return
+		}
 	}
 	if !e.allReturned("read fault") {
 		return
@@ -584,6 +617,114 @@ func c12LocalFailure(w *mon.W, P, variant, scen int) {
 		}
 	}
 	w.NT(fmt.Sprintf("local/%d/%d", P, variant))
+}
+
+// c12DeadlineThenPlain: the connection honours write deadlines against a virtual clock. A
+// call whose context carries a deadline completes in time; later - the clock is past that
+// deadline, but well within the library's own default timeout - calls without a deadline
+// are made. The first call's ended context must not disturb them.
+func c12DeadlineThenPlain(w *mon.W, P, variant, scen int) {
+	desc := fmt.Sprintf("scenario %d: %d pending calls; a call with a deadline context completes, the connection clock passes that deadline, then a plain call (variant %d)", scen, P, variant)
+	w.Case("C12 %s", desc)
+	e := newC12(w, desc)
+	if e == nil {
+		return
+	}
+	defer e.h.close()
+	w.Eval()
+	w.Count("fault:deadline-then-plain", 1)
+	var skew int64
+	e.h.cli.Clock = func() time.Time { return time.Now().Add(time.Duration(atomic.LoadInt64(&skew))) }
+	cs := e.launch(P, c12kinds)
+	if !settle() || !e.absorb(cs) {
+		return
+	}
+	one := func(ctx context.Context, uid int, what string) (ok, inconclusive bool) {
+		var r callRes
+		fin := make(chan struct{})
+		go func() { r = doCall(ctx, e.h.sess, ckStat, uid); close(fin) }()
+		if !settle() {
+			return false, true
+		}
+		reqs := e.h.take()
+		select {
+		case <-fin:
+			if ctx.Err() != nil {
+				return false, true // the real deadline was missed (loaded machine): not judged
+			}
+			e.bad("mismatch", "call-disturbed-by-earlier-deadline", "%s returned without its request having been answered: uid=%d err=%v (requests on the wire: %d)", what, r.uid, r.err, len(reqs))
+			return false, false
+		default:
+		}
+		if len(reqs) != 1 || uidOfRequest(reqs[0]) != uid {
+			e.bad("mismatch", "request-count", "%s: %d requests arrived", what, len(reqs))
+			return false, false
+		}
+		e.h.reply(replyFor(reqs[0], uid))
+		q := mon.AwaitQuiesce(fin)
+		if !q.Done {
+			if q.Hung {
+				e.bad("hang", "call-did-not-return:deadline", "%s did not return after its reply (blocked at %s)", what, q.Sites)
+				return false, false
+			}
+			return false, true
+		}
+		if r.err != nil || r.uid != uid {
+			if ctx.Err() != nil {
+				return false, true
+			}
+			e.bad("mismatch", "call-disturbed-by-earlier-deadline", "%s returned uid=%d err=%v", what, r.uid, r.err)
+			return false, false
+		}
+		return true, false
+	}
+	dctx, dcancel := context.WithDeadline(context.Background(), time.Now().Add(10*time.Second))
+	defer dcancel()
+	if variant%2 == 1 {
+		var c2 context.CancelFunc
+		dctx, c2 = context.WithTimeout(dctx, 8*time.Second) // nested: the nearer deadline counts
+		defer c2()
+	}
+	ok, inc := one(dctx, 700, "the call with a deadline context")
+	if inc {
+		w.Inconclusive("deadline scenario: watchdog or real deadline missed")
+		return
+	}
+	if !ok {
+		return
+	}
+	if variant >= 2 {
+		dcancel()
+	}
+	atomic.StoreInt64(&skew, int64(15*time.Second)) // time passes: beyond that deadline, within the library's default of 30 s
+	for i := 0; i < 2; i++ {
+		ok, inc = one(context.Background(), 701+i, fmt.Sprintf("plain call #%d issued after the earlier call's deadline has passed", i+1))
+		if inc {
+			w.Inconclusive("deadline scenario: watchdog")
+			return
+		}
+		if !ok {
+			return
+		}
+	}
+	// the pending calls are answered now: each must get its own result
+	for _, c := range cs {
+		e.h.reply(replyFor(c.req, c.uid))
+	}
+	if !settle() {
+		return
+	}
+	e.mu.Lock()
+	defer e.mu.Unlock()
+	for _, c := range cs {
+		if !c.done || c.res.err != nil || c.res.uid != c.uid {
+			e.bad("mismatch", "call-disturbed-by-earlier-deadline", "pending call uid=%d returned done=%v uid=%d err=%v", c.uid, c.done, c.res.uid, c.res.err)
+			return
+		}
+	}
+	sets, _ := e.h.cli.DeadlineStats()
+	w.Max("write_deadline_sets", int64(sets))
+	w.NT(fmt.Sprintf("deadline/%d/%d", P, variant))
 }
 
 // ---- hostile peer
